@@ -226,6 +226,16 @@ impl<'a> Judge<'a> {
             }
             Out::Panic { site, msg } => l.violation(mk("panic", site.clone(), format!("list {labels:?}: {msg}"))),
         }
+        // from the state this verification left behind, a holder-made list must still be accepted
+        if !is_control {
+            if let Some(c) = self.controls.iter().next_back() {
+                let pres = Parts { jwt: cred.parts.jwt.clone(), disclosures: c.clone(), kb: None }.serialize(fmt);
+                let again = drive::verify(&pres, keys::issuer_dec(cred.cfg.alg, 0), None, None, fmt);
+                if !again.is_ok() {
+                    l.violation(mk(if again.is_panic() { "panic" } else { "honest_rejected_after_adversarial" }, "c03_control_after_list".into(), format!("after list {labels:?}: the holder-made list gives {}", again.describe())));
+                }
+            }
+        }
     }
 }
 
